@@ -12,6 +12,7 @@ History = list of [thread, cop]; cop (mirrors Wrap/CountInterp.v):
   ["call", body]         decorated plain function whose body runs `body`
   ["with", body]         with profiler: body
   ["catch", body]        try: body except Boom: pass
+  ["foreign", "acquire"|"release"]  another party takes / frees sys.monitoring PROFILER_ID
   ["obj", name, slot, n] (gnew/gnewr: generator yielding n times then returning/raising) operations on wrapped generator / coroutine / async generator objects
 """
 import queue
@@ -52,24 +53,38 @@ class Rig:
         def call_body(body):
             rig.interp(body)
 
+        # every body observes once per resume and once in its clean-up code (reached when
+        # close() / throw() / the finalisation of a dropped object is forwarded into it)
         def gen_body(n, raises):
-            for i in range(n):
+            try:
+                for i in range(n):
+                    rig.observe()
+                    yield i
+            except BaseException:
                 rig.observe()
-                yield i
+                raise
             rig.observe()
             if raises:
                 raise Boom()
 
         async def co_body():
             rig.observe()
-            await Suspend()
+            try:
+                await Suspend()
+            except BaseException:
+                rig.observe()
+                raise
             rig.observe()
 
         async def ag_body():
             rig.observe()
-            await Suspend()
-            rig.observe()
-            yield 1
+            try:
+                await Suspend()
+                rig.observe()
+                yield 1
+            except BaseException:
+                rig.observe()
+                raise
             rig.observe()
 
         self.call_fn = self.prof(call_body)
@@ -111,6 +126,12 @@ class Rig:
                 pass
         elif k == 'obj':
             self.obj(c[1], c[2], c[3] if len(c) > 3 else 0)
+        elif k == 'foreign':
+            # somebody else claims / gives back sys.monitoring's PROFILER_ID
+            if c[1] == 'acquire':
+                mon.use_tool_id(mon.PROFILER_ID, 'other')
+            elif mon.get_tool(mon.PROFILER_ID) == 'other':
+                mon.free_tool_id(mon.PROFILER_ID)
         else:
             raise RuntimeError('bad cop %r' % (c,))
 
@@ -214,6 +235,8 @@ class Rig:
             self.interp(c)
         except Boom:
             pass
+        except ValueError:
+            self.out.append(-3)     # the tool id is taken: the operation raised
 
 
 class Worker(threading.Thread):
@@ -287,6 +310,7 @@ def run_case(rigs, case):
     except BaseException as e:  # noqa: an unexpected exception is an observation too
         out.append(-1)
         err = '%s: %s' % (type(e).__name__, e)
+    rig.out = []      # clean-up code of leftover objects observes too: not part of the trace
     # cleanup: close what is still suspended (in the thread that owns it is not needed for
     # the check: the trace is complete), then verify nothing is left behind
     owners = case.get('owners', {})
